@@ -17,7 +17,7 @@ from .. import build
 
 PROP = 'C09'
 RULES = [
-    Rule('C09.R1', 'every jump back (current position := stored begin position) is accompanied by All-Notes-Off on 16 channels on every path', 4),
+    Rule('C09.R1', 'every jump back (current position := stored begin position) is accompanied by All-Notes-Off on 16 channels on every path', 3),
     Rule('C09.R2', 'loop-start / loop-end callbacks are invoked at the sites where the loop flags are consumed', 3),
     Rule('C09.R3', 'loop callbacks registered by the user are stored only by their setter or from the hooks twin', 8),
     Rule('C09.R4', 'loop markers are recognised case-insensitively, validated with their own duplicate flags, and the repeat counter is re-armed on rewind', 8),
@@ -105,6 +105,7 @@ def analyse(facts, tier):
     dom, pdom = cfg.dom(), cfg.pdom()
     # ---- R1
     n = 0
+    jump_sources = set()
     for b, j, st in cfg.stmts():
         for x in walk(st['s']):
             ap = assign_parts(x)
@@ -116,6 +117,7 @@ def analyse(facts, tier):
                 if 'Position' not in src and 'position' not in src:
                     continue
                 n += 1
+                jump_sources.add(src)
                 ok = False
                 for h in heads:
                     if ('b', h) in (dom.get(('b', b)) or ()):
@@ -151,8 +153,9 @@ def analyse(facts, tier):
                 obls.append(Obl('C09.R1', pe.name, 'm_currentPosition = ' + src, st['loc'], 'discharged' if ok else 'finding',
                                 why=why_ok if ok else
                                 'a path jumps back without sending All-Notes-Off to the 16 channels', detail={'ano_loops': len(heads)}))
-    if n < 3:
-        raise build.AnalysisBroken('C09.R1: only %d jump sites found in processEvents' % n)
+    # the global loop and the loop stack each jump at least once (the two stack jumps, infinite and counted, may share one statement)
+    if n < 2 or len(jump_sources) < 2:
+        raise build.AnalysisBroken('C09.R1: only %d jump sites (%d distinct stored positions) found in processEvents' % (n, len(jump_sources)))
 
     # ---- R2
     def hook_calls(name):
